@@ -31,6 +31,25 @@ func (x *StatementCartesian[X0, X1]) Bytes() []byte {
 	return out
 }
 
+type statementCartesianDTO[X0, X1 sigma.Statement] struct {
+	X0 X0
+	X1 X1
+}
+
+// UnmarshalCBOR deserialises and validates a composed statement.
+func (x *StatementCartesian[X0, X1]) UnmarshalCBOR(data []byte) error {
+	dto, err := serde.UnmarshalCBOR[*statementCartesianDTO[X0, X1]](data)
+	if err != nil {
+		return errs.Wrap(err).WithMessage("cannot unmarshal statement")
+	}
+	if dto == nil || utils.IsNil(dto.X0) || utils.IsNil(dto.X1) {
+		return ErrInvalidArgument.WithMessage("statements cannot be nil")
+	}
+	x.X0 = dto.X0
+	x.X1 = dto.X1
+	return nil
+}
+
 var _ sigma.Statement = (*StatementCartesian[sigma.Statement, sigma.Statement])(nil)
 
 // WitnessCartesian represents a binary AND-composed witness with two potentially
@@ -40,6 +59,25 @@ type WitnessCartesian[W0, W1 sigma.Witness] struct {
 	W0 W0
 	// W1 is the witness for the second statement.
 	W1 W1
+}
+
+type witnessCartesianDTO[W0, W1 sigma.Witness] struct {
+	W0 W0
+	W1 W1
+}
+
+// UnmarshalCBOR deserialises and validates a composed witness.
+func (w *WitnessCartesian[W0, W1]) UnmarshalCBOR(data []byte) error {
+	dto, err := serde.UnmarshalCBOR[*witnessCartesianDTO[W0, W1]](data)
+	if err != nil {
+		return errs.Wrap(err).WithMessage("cannot unmarshal witness")
+	}
+	if dto == nil || utils.IsNil(dto.W0) || utils.IsNil(dto.W1) {
+		return ErrInvalidArgument.WithMessage("witnesses cannot be nil")
+	}
+	w.W0 = dto.W0
+	w.W1 = dto.W1
+	return nil
 }
 
 var _ sigma.Witness = (*WitnessCartesian[sigma.Witness, sigma.Witness])(nil)
@@ -90,6 +128,25 @@ type StateCartesian[S0, S1 sigma.State] struct {
 	S0 S0
 	// S1 is the prover state for the second branch.
 	S1 S1
+}
+
+type stateCartesianDTO[S0, S1 sigma.State] struct {
+	S0 S0
+	S1 S1
+}
+
+// UnmarshalCBOR deserialises and validates a composed prover state.
+func (s *StateCartesian[S0, S1]) UnmarshalCBOR(data []byte) error {
+	dto, err := serde.UnmarshalCBOR[*stateCartesianDTO[S0, S1]](data)
+	if err != nil {
+		return errs.Wrap(err).WithMessage("cannot unmarshal state")
+	}
+	if dto == nil || utils.IsNil(dto.S0) || utils.IsNil(dto.S1) {
+		return ErrInvalidArgument.WithMessage("states cannot be nil")
+	}
+	s.S0 = dto.S0
+	s.S1 = dto.S1
+	return nil
 }
 
 var _ sigma.State = (*StateCartesian[sigma.State, sigma.State])(nil)
